@@ -6,10 +6,12 @@ mod c04;
 mod c05;
 mod c12;
 mod c16;
+mod c17;
 mod c19;
 mod choice;
 mod corpus;
 mod engine;
+mod proj;
 mod refdiff;
 mod refmap;
 mod refmvn;
@@ -98,6 +100,7 @@ fn dispatch(a: &Args, digest_only: bool) -> i32 {
             }
             c16::run(&c16::Args16 { tier: a.tier, seed: seed(), workers: a.workers, evidence: a.evidence, digest_only, max_units: a.runs.map(|n| n as usize) })
         }
+        "C17" => drive(&c17::C17, a, digest_only),
         "C19" => drive(&c19::C19, a, digest_only),
         other => {
             eprintln!("harness error: no engine for {other}");
